@@ -9,5 +9,6 @@ if [ "$1" = "-r" ]; then
 else
   (cd $d/work && patch -p1 -s < "$1")
 fi
-cd /verif && CATTRS_SRC=$d/work/src ./check $prop quick | grep -E "VIOLATION|^OK|KNOWN|INFRA|^  " | head -8
+tier=${TIER:-quick}
+cd /verif && VERIF_EVIDENCE_DIR=$d/ev VERIF_REPLAY_DIR=$d/rp CATTRS_SRC=$d/work/src ./check $prop $tier | grep -E "VIOLATION|^OK|KNOWN|INFRA|^  " | head -8
 rm -rf $d
